@@ -67,6 +67,31 @@ def _enumerable(node, path=()):
     return out
 
 
+def _echo_keys(spec):
+    """Nested schemas reuse a key of their parent (db.port next to port): dotted paths that contain each other."""
+    roots = [c["key"] for c in spec["children"] if c["kind"] in STYPE]
+    if not roots:
+        return spec
+    kids = []
+    for c in spec["children"]:
+        if c["kind"] == "schema":
+            used = {x["key"] for x in c["children"]}
+            k = next((r for r in roots if r not in used), None)
+            sub = []
+            renamed = False
+            for x in c["children"]:
+                if not renamed and k and x["kind"] in STYPE:
+                    for v in c["children"]:
+                        if v["kind"] == "virtual" and v.get("of") == x["key"]:
+                            v["of"] = k
+                    x = dict(x, key=k)
+                    renamed = True
+                sub.append(x)
+            c = dict(c, children=sub)
+        kids.append(c)
+    return dict(spec, children=kids)
+
+
 def strategy(tier):
     depth = 3 if tier == "quick" else 4
 
@@ -78,18 +103,30 @@ def strategy(tier):
             args = st.integers(0, 7).flatmap(lambda k: st.just([]) if k == 0 else st.lists(arg, min_size=1, max_size=min(k, 4)))
             ign = st.one_of(st.none(), st.none(), st.integers(0, len(fields) - 1).map(lambda i: [i]),
                             st.lists(st.integers(0, len(fields) - 1), max_size=3).map(lambda l: l + [-1]))
+            # a supplied option whose path is contained in the path of an ignored one (port vs db.port)
+            nested = [(i, j) for i, (pi, _) in enumerate(fields) for j, (pj, _) in enumerate(fields)
+                      if i != j and ".".join(pi) in ".".join(pj)]
+            if nested:
+                def contained(pair):
+                    i, j = pair
+                    return st.tuples(st.lists(st.tuples(st.just(i), specs.values(fields[i][1]), st.booleans()), min_size=1, max_size=1), st.just([j]))
+                both = st.sampled_from(nested).flatmap(contained)
+                args_ign = ops.weighted((3, st.tuples(args, ign)), (1, both))
+            else:
+                args_ign = st.tuples(args, ign)
         else:
-            args, ign = st.just([]), st.none()
+            args_ign = st.just(([], None))
         if leaves:
             assign = st.lists(st.integers(0, len(leaves) - 1).flatmap(lambda i: st.tuples(st.just(i), ops.value_for(leaves[i][1]))), max_size=3)
         else:
             assign = st.just([])
         return st.fixed_dictionaries({"spec": st.just(spec), "prefix": st.lists(ops.single_op(spec), max_size=6),
-                                      "assign": assign, "args": args, "ignore": ign, "ignore_str": st.booleans()})
+                                      "assign": assign, "args_ign": args_ign, "ignore_str": st.booleans()}).map(
+            lambda c: dict(c, args=c["args_ign"][0], ignore=c["args_ign"][1]))
     kinds = ["str", "int", "float", "port", "bool", "bool", "host", "loglevel", "appmode", "secure", "list", "dict", "bytes", "any",
              "challenge", "ipv4", "ipv4net", "url", "filename"]
     return worlds.schema_spec(tier, kinds=kinds, depth=depth, width=4 if tier == "quick" else 6, min_width=2,
-                              allow=("schema", "schema", "schema", "configtype", "schemalist", "virtual", "method", "featureflag")).flatmap(build)
+                              allow=("schema", "schema", "schema", "configtype", "schemalist", "virtual", "method", "featureflag")).map(_echo_keys).flatmap(build)
 
 
 def _option(path):
